@@ -43,7 +43,9 @@ SCRATCH_BASE = "/dev/shm" if os.path.isdir("/dev/shm") and os.access("/dev/shm",
 ODD_TEXT = ("", "åäö", "日本語", "a\tb", "\x00", "x;y", '"quoted"', "back\\slash", " ", "emoji😀", " lead", "{}", "null",
             # text that means something to JSON dialects, templating or shells (it is just text)
             "http://example.org/fw", "door /* north */ side", "a//b", "*/", "/*", "# not a comment", "<!-- x -->", "${HOME}", "%(x)s", "\\u0041", "1.0.", " 2.1", "v3.", "NaN", "Infinity", "true",
-            "[1]", '{"a": 1}', "'single'", "trailing,", ",")
+            "[1]", '{"a": 1}', "'single'", "trailing,", ",",
+            # text that is not in Unicode normal form C (a loader that normalises changes it)
+            "u\u0308ber", "Probe 10k\u2126", "\u212a", "e\u0301", "\ufb01", "\u1e9b\u0323", "A\u030a")
 
 
 def budgets(tier: str) -> dict:
@@ -109,11 +111,11 @@ def strategy(tier: str):
          # the same Persistence object saved earlier states of the registry (scheduled saves); the file may have been removed since
          "mid_saves": st.one_of(st.just([]), st.lists(st.integers(0, 24), min_size=1, max_size=3, unique=True).map(sorted)),
          "unlink_after_mid": st.sampled_from((False, False, True)),
-         "final_saves": st.sampled_from((1, 1, 2)), "build": st.sampled_from((None, None, "outside", "two-runs")), "reload_after_use": st.booleans()}
+         "final_saves": st.sampled_from((1, 1, 2)), "build": st.sampled_from((None, None, "outside", "two-runs")), "reload_after_use": st.booleans(), "nested_edit": st.sampled_from((False, False, True))}
     )
     direct = st.fixed_dictionaries({"kind": st.just("direct"), "registry": _direct_registry(), "legacy_nulls": st.booleans(), "prior_save": prior, "load_via": load_via,
                                     "final_saves": st.sampled_from((1, 1, 2)), "unlink_after_mid": st.sampled_from((False, False, True)),
-                                    "build": st.sampled_from((None, None, "outside", "two-runs")), "reload_after_use": st.booleans()})
+                                    "build": st.sampled_from((None, None, "outside", "two-runs")), "reload_after_use": st.booleans(), "nested_edit": st.sampled_from((False, False, True))})
     overlap = st.fixed_dictionaries({"kind": st.just("overlap"), "registry": _direct_registry(), "head_start": st.integers(0, 8), "grow": st.integers(1, 3)})
     return gen.weighted((4, hist), (2, direct), (1, overlap))
 
@@ -141,6 +143,8 @@ def enumerate_cases(tier: str):
                 yield {"kind": "direct", "registry": small, "legacy_nulls": False, "load_via": via, "final_saves": finals, "unlink_after_mid": unlink}
                 yield {"kind": "hist", "version": "2.1", "ops": [["rx", "1;255;0;0;17;2.1\n"], ["rx", "1;0;0;0;6;t\n"], ["rx", "1;0;1;0;0;20\n"], ["rx", "2;255;0;0;17;2.1\n"]],
                        "load_via": via, "final_saves": finals, "unlink_after_mid": unlink, "mid_saves": [1, 3]}
+    yield {"kind": "direct", "registry": small, "legacy_nulls": False, "load_via": "own", "final_saves": 1, "nested_edit": True}
+    yield {"kind": "hist", "version": "2.1", "ops": [["rx", "1;255;0;0;17;2.1\n"], ["rx", "1;0;0;0;6;t\n"], ["rx", "1;0;1;0;0;20\n"]], "load_via": "own", "final_saves": 2, "nested_edit": True}
     for build in ("outside", "two-runs"):
         yield {"kind": "direct", "registry": small, "legacy_nulls": False, "load_via": "own", "final_saves": 1, "build": build}
         yield {"kind": "hist", "version": "2.1", "ops": [["rx", "1;255;0;0;17;2.1\n"], ["rx", "1;0;0;0;6;t\n"], ["rx", "1;0;1;0;0;20\n"]], "load_via": "own", "final_saves": 1, "build": build}
@@ -356,6 +360,18 @@ def run_case(case: dict) -> Outcome:
             if not 0 <= node["battery_level"] <= 100 or abs(node["node_type"]) > 2**31 or node["node_id"] == 255 or any(ord(ch) > 127 or ord(ch) < 32 for ch in node["sketch_name"] + node["protocol_version"]):
                 info["boundary"] = True
         try:
+            if case.get("nested_edit") and gateway.nodes:
+                # saved once; then the application edits the nested public objects in place (child values, descriptions, children); saved again
+                await gateway.persistence.save()
+                from aiomysensors.model.node import Child as _Child
+
+                for node in gateway.nodes.values():
+                    for child in node.children.values():
+                        child.values[2] = "edited in place"
+                        child.description = "edited description"
+                    node.children[250] = _Child(250, 3, description="put there directly", values={0: "x"})
+                before = env.snapshot(gateway.nodes)
+                info["snapshot"] = before
             await gateway.persistence.save()
             if case.get("final_saves", 1) > 1:
                 if case["kind"] == "direct" and case.get("unlink_after_mid") and os.path.exists(path):
